@@ -15,6 +15,8 @@ TRUSTED = ['T1 pyvc model of Python (DESIGN 3)', 'T13 text-mode tell() after wri
            'hashlib.md5 is a function of the bytes', 'T4 Resource.source is the descriptor path (joined to the base path "."); Resource.descriptor is a private copy',
            'T16 z3 / cvc5']
 ASSUMPTIONS = ['hash_handler: that consecutive read(1024) results concatenate to the file content is the file-object contract (T13), not proved']
+from contracts.common import lazy_sym, lazy_nat   # noqa: E402
+
 ITEMS = [
     Item('DumperBase.attr-helpers', DM.sym_attr_helpers, [('differential', DM.nat_attr_helpers)], DM.D + 'dumper_base.py::DumperBase.set_attr'),
     Item('DumperBase.row_counter', DM.sym_row_counter, [], DM.D + 'dumper_base.py::DumperBase.row_counter'),
@@ -27,6 +29,9 @@ ITEMS = [
     Item('PathDumper.write_file_to_output.faulty', DM.sym_write_file_to_output_faulty, [], DM.D + 'to_path.py::PathDumper.write_file_to_output'),
     Item('ZipDumper', DM.sym_zip_dumper, [], DM.D + 'to_zip.py::ZipDumper.write_file_to_output'),
     Item('DumperBase.process_resources', DM.sym_process_resources, [], DM.D + 'dumper_base.py::DumperBase.process_resources'),
-    Item('dumps', None, [('statistics', N.nat_dump_stats), ('dropping-validator', N.nat_dump_dropping_validator)], None),
+    Item('dumps', None, [('statistics', N.nat_dump_stats), ('dropping-validator', N.nat_dump_dropping_validator),
+                         ('several-dumpers', N.nat_stats_of_several_dumpers)], None),
     Item('recorded-findings', None, [('bounded', KF.nat_findings_c09)], 'dataflows/processors/dumpers/file_dumper.py::FileDumper.rows_processor'),
+    # the stats a run returns are the fold of the steps' stats, later steps winning (two dumpers in one flow: the last dump's numbers)
+    Item('core-objects', lazy_sym('base', 'sym_base_objects'), [], 'dataflows/base/datastream.py::DataStream.merge_stats'),
 ]
